@@ -433,7 +433,9 @@ class Mailbox:
                 # NOTE: Once this command begins executing it will block any
                 #       new task from executing until they finish.
                 #
-                if self.sequences.get("Deleted", []):
+                if imap_cmd.expunge_regardless or self.sequences.get(
+                    "Deleted", []
+                ):
                     # If there are messages to be expunged, can only run when
                     # there are no other commands running
                     #
